@@ -102,7 +102,18 @@ def handlers(repo, run, m):
             if isinstance(x, ast.Assign) and any(is_self_attr(tg, "__int_status") for tg in x.targets):
                 ok1 = isinstance(x.value, ast.Constant) and x.value.value == 1
                 guard = [a for a in ancestors(x) if isinstance(a, ast.If)]
-                okg = bool(guard) and "!= 2" in src(guard[0].test)
+                # the store must be unreachable when the status already is 2 (terminated by event)
+                from ..sym import path_condition, tree_atoms, eval_bool
+                import itertools
+                pc, _bt = path_condition(x, t)
+                ats = tree_atoms(pc)
+                two = [a for a in ats if a.split("@")[0] in ("2 Eq self.__int_status", "self.__int_status Eq 2")]
+                okg = bool(two)
+                if okg:
+                    for vals in itertools.product((False, True), repeat=len(ats)):
+                        asg = dict(zip(ats, vals))
+                        if asg[two[0]] and eval_bool(pc, asg):
+                            okg = False
                 run.judged(rid, "else-branch status store: %s under `%s`" % (src(x), src(guard[0].test)[:80] if guard else ""), ok=ok1 and okg)
                 if not (ok1 and okg):
                     run.report("C12.1", DS, x, "the success status is assigned without preserving status 2 (terminated by event)")
@@ -159,8 +170,10 @@ def trim(repo, run, m):
                                    "expose unwritten rows", text="finally trim")
     tr = repo.get(DS, "OdeSystem.__trim_soln_space")
     run.analysed_fn(DS, tr)
-    want = {"self.__y": "self.__y[:self.counter + 1]", "self.__t": "self.__t[:self.counter + 1]"}
-    got = {src(st.targets[0]): src(st.value) for st in tr.body if isinstance(st, ast.Assign)}
+    from ..sym import inline_locals, Canon
+    ctr = Canon(env=inline_locals(tr))
+    want = {"self.__y": "self.__y[:1 + self.counter]", "self.__t": "self.__t[:1 + self.counter]"}
+    got = {src(st.targets[0]): ctr.text(st.value) for st in tr.body if isinstance(st, ast.Assign) and is_self_attr(st.targets[0])}
     ok2 = got == want
     run.judged(rid, "trim slices: %s" % got, ok=ok2)
     if not ok2:
